@@ -40,7 +40,18 @@ func NewJSONFileStorage(filename string) (*JSONFileStorage, error) {
 		if err := json.Unmarshal(data, &stored); err != nil {
 			return nil, fmt.Errorf("unmarshal json: %w", err)
 		}
-		s.routers = stored.Routers
+		// The state file is not authenticated: only take over router records
+		// that hold a valid identity for the address they are filed under.
+		s.routers = make(map[netip.Addr]*StoredRouter, len(stored.Routers))
+		for ip, router := range stored.Routers {
+			if router == nil || router.Address == nil || router.Address.IP != ip {
+				continue
+			}
+			if err := router.Address.VerifyAddress(); err != nil {
+				continue
+			}
+			s.routers[ip] = router
+		}
 		s.mappings = stored.Mappings
 
 	case errors.Is(err, os.ErrNotExist):
